@@ -12,6 +12,11 @@ commuting-family flag and the conflict-edge variant REGENERATED from the source 
 namespace QipVerif.SpinChain
 open QipVerif
 
+/-- value of an angle in units of π under a rational valuation `r` of the symbols (symbol `j` stands for `r j · π`);
+for a fixed angle this is `p8 / 8`, whatever `r` -/
+def evQr (r : Nat → Rat) (a : Ang) : Rat :=
+  (match a.sym with | some j => ((a.cn : Rat) / (a.cd : Rat)) * r j | none => 0) + (a.p8 : Rat) / 8
+
 def lcmNat (a b : Nat) : Nat := if a = 0 ∨ b = 0 then 0 else a / Nat.gcd a b * b
 
 /-- common denominator of the durations -/
